@@ -424,7 +424,10 @@ def oracle(cases):
              # group traffic, not an invitation op, hence not a C16 failure: a commit that rotates a group the client is
              # Active in onto an id occupied by a record the client never consented to (Pending / declined invitation)
              # is merged and then refused by the store (mechanism store-limit-sync-failure of C06 / C08)
-             "observations": {"unconsented-invitation-blocks-rotation": 0}}
+             # a fresh accept put the client into exactly the inviter's current state, nothing happened since, yet the next
+             # message of the group is not read (stale exporter secret cached for that epoch number by an earlier, foreign
+             # group of the same MLS group id: needs the open finding welcome-foreign-creator-replaces-mls first)
+             "observations": {"unconsented-invitation-blocks-rotation": 0, "joined-but-unreadable:stale-exporter-secret": 0}}
     def fail(c, k, sig, what):
         fails.append({"kind": "oracle", "signature": sig, "what": f"{c['id']} step {k} `{c['ops'][k]}`: {what}",
                       "replay_body": case_text(c, k, what), "case": c, "step": k})
@@ -442,6 +445,7 @@ def oracle(cases):
         refused_collision = set() # (client, w): this invitation was refused while another record held its nostr group id
         disturbed = {}            # (client, g) -> [(step, signature)] of the invitation ops rule (4) reported for that group
         ev_nid = {}               # event index -> (group, nostr group id after that commit)
+        fresh_join = {}           # (client, g) -> step of a fresh accept into the group's CURRENT state, nothing but invitation ops / probes since
         bad_wrappers = set()      # (client, w, salt) under which an undecodable / invalid variant was offered (legitimately recorded as failed)
         synced_since = {}         # (client, g) -> a commit was processed for g after the client last stored an invitation to g
         next_w = 0
@@ -465,6 +469,9 @@ def oracle(cases):
                 wmeta[int(kv(res, "w"))] = {"g": int(t[2]), "epoch": kv(res, "epoch"), "tok": kv(res, "tok"), "members": kv(res, "members"), "forged": True, "nid": kv(res, "nid")}
             if t[0] in COMMIT_OPS and res.startswith("ok") and kv(res, "ev") is not None:
                 ev_nid[int(kv(res, "ev"))] = (int(t[2]), kv(res, "nid"))
+            if t[0] in COMMIT_OPS and res.startswith("ok"):
+                for key in [x for x in fresh_join if x[1] == int(t[2])]:
+                    del fresh_join[key]
             if t[0] in COMMIT_OPS and res.startswith("ok"):
                 # the group moved on: whoever has not processed this commit yet legitimately fails the next probe
                 for key in [x for x in routable if x[1] == int(t[2])]:
@@ -506,6 +513,9 @@ def oracle(cases):
                         stats["fresh_accepts_checked"] += 1
                         exp = ("a", m["epoch"], m["tok"], m["epoch"], m["members"], "r")
                         got = (gstate(part), gfield(part, "E"), gfield(part, "T"), gfield(part, "ME"), gfield(part, "MM"), gfield(part, "SU")) if part else None
+                        if got == exp and not m.get("forged") and not any(wm["g"] == m["g"] and wm.get("k", -1) > m.get("k", -1) for wm in wmeta.values() if not wm.get("forged")) \
+                                and not any(cc.split()[0] in COMMIT_OPS and cc.split()[2] == str(m["g"]) and kk > m.get("k", -1) for kk, cc in enumerate(c["ops"][:k])):
+                            fresh_join[(j, m["g"])] = k      # the invitation is the group's latest operation: the inviter is still in that state
                         if got != exp:
                             # the listed mechanism: the record was written by process_welcome of ANOTHER invitation to the same group,
                             # namely the one this client stored most recently (a replay of a stored rumor writes nothing), and it
@@ -649,10 +659,15 @@ def oracle(cases):
             if t[0] == "deliver":
                 for key in [x for x in routable if x[0] == j]:
                     routable[key] = None
+                for key in [x for x in fresh_join if x[0] == j]:
+                    del fresh_join[key]
             if t[0] == "probe":
                 stats["probes"] += 1
                 stats["probes_app"] += res == "app"
                 key = (j, int(t[2]))
+                if res != "app" and key in fresh_join and ag.get(key[1]) and gstate(ag[key[1]]) == "a":
+                    stats["observations"]["joined-but-unreadable:stale-exporter-secret"] += 1
+                fresh_join.pop(key, None)
                 if res == "app":
                     if routable.get(key):
                         stats["routing_probes_after_invitation_ops"] += 1
